@@ -37,7 +37,8 @@ RETRY_TIMEOUT = 150       # second chance for a run that timed out (a loaded mac
 # ---------------------------------------------------------------------------------------------- concretisation
 PIPE_TEXT = {"lower": "lower", "upper": "upper", "firstLower": "firstLower", "snakecase": "snakecase",
              "trimBaz": 'trimSuffix "Baz"', "replSlash": 'replaceAll "/" "_"', "base": "base",
-             "baseTrimGo": 'base | trimSuffix ".go"', "dir": "dir"}
+             "baseTrimGo": 'base | trimSuffix ".go"', "dir": "dir", "firstUpper": "firstUpper", "kebabcase": "kebabcase",
+             "trimSufZa": 'trimSuffix "za"', "trimPreAb": 'trimPrefix "ab"', "repl1": 'replace "/" "_" 1'}
 
 
 def py_snake(s):
@@ -48,7 +49,10 @@ PIPE_PY = {"lower": str.lower, "upper": str.upper, "firstLower": lambda s: s[:1]
            "snakecase": py_snake, "trimBaz": lambda s: s[:-3] if s.endswith("Baz") else s,
            "replSlash": lambda s: s.replace("/", "_"), "base": posixpath.basename,
            "baseTrimGo": lambda s: (lambda b: b[:-3] if b.endswith(".go") else b)(posixpath.basename(s)),
-           "dir": posixpath.dirname}
+           "dir": posixpath.dirname, "firstUpper": lambda s: s[:1].upper() + s[1:],
+           "kebabcase": lambda s: py_snake(s).replace("_", "-"),
+           "trimSufZa": lambda s: s[:-2] if s.endswith("za") else s, "trimPreAb": lambda s: s[2:] if s.startswith("ab") else s,
+           "repl1": lambda s: s.replace("/", "_", 1)}
 
 DELIM = re.compile(r"\{\{|\}\}")
 
@@ -159,6 +163,11 @@ def deomega(x):
         return {k: deomega(v) for k, v in x.items()}
     return x
 PKGS = {"w": "wroot", "w/a": "apk", "w/a/b": "bpk", "w/k": "kpk"}
+# source-file kinds (spec/Layout.tla SrcFile): file name, text before the package clause, text after it
+SOURCES = {"w": ("svc.go", "//line /nonexistent/abs/gen.go:1\n", ""),
+           "w/a": ("sv cω.go", "", ""),
+           "w/a/b": ("gogo.go", "", "//line tmpl/mid.qtpl:7\n"),
+           "w/k": ("go_log.go", "//line tmpl/gen.qtpl:1\n", "")}
 PROBE = "PROBE\nPKG={{.PkgName}}\n{{range .Interfaces}}IFACE={{.Name}}\nSTRUCT={{.StructName}}\n{{end}}END\n"
 
 
@@ -178,8 +187,13 @@ class World:
         self.sub = lambda s: s.replace("%R%", R)
         files = {"go.mod": "module example.com/r\n\ngo 1.23\n", "w/go.mod": vlib.GO_SUM_MOD, "probe.templ": PROBE}
         for d, pn in PKGS.items():
-            files[d + "/svc.go"] = "package " + pn + "\n\n" + "".join(
+            fn, before, after = SOURCES[d]
+            files[d + "/" + fn] = before + "package " + pn + "\n\n" + after + "".join(
                 f"type {n} interface{{ Do(x int) string }}\n" for n in IFACES)
+        for c in cases:
+            if c["meta"]["ifdir"] + "/" + c["meta"]["srcfile"] != "%R%/" + [d for d in SOURCES if "%R%/" + d == c["meta"]["ifdir"]][0] + "/" + \
+                    SOURCES[[d for d in SOURCES if "%R%/" + d == c["meta"]["ifdir"]][0]][0]:
+                raise MachineryError("source file names of the harness and of Layout.tla differ")
         tmpl = self.sub(m["tmpl"])
         conf = {"template": tmpl, "packages": {}}
         if tmpl != "testify":
